@@ -63,6 +63,11 @@ type Node struct {
 	Mandatory bool     `json:"mandatory,omitempty"`
 	Mod       string   `json:"mod,omitempty"` // defining module when it is not the main module (augmented in)
 	Extra     string   `json:"extra,omitempty"` // raw statements added to the body
+	// layout of the text (the meaning stays the same): Aug = written inside an augment statement of the same module that
+	// is aimed at the parent (such children come after the ones written in place); Short = a case written in shorthand
+	// form (its only child stands for it; the case is named after the child)
+	Aug   bool `json:"aug,omitempty"`
+	Short bool `json:"short,omitempty"`
 }
 
 // Identity of the module.
@@ -112,8 +117,31 @@ func (m *Module) Yang() string {
 	for _, n := range m.Top {
 		n.yang(&b, " ")
 	}
+	for _, n := range m.Top {
+		n.yangAugments(&b, "/"+n.Name)
+	}
 	b.WriteString("}\n")
 	return b.String()
+}
+
+// yangAugments writes, parents before their descendants, one augment statement per node that has children marked Aug.
+func (n *Node) yangAugments(b *strings.Builder, path string) {
+	first := true
+	for _, c := range n.Children {
+		if c.Aug {
+			if first {
+				fmt.Fprintf(b, " augment \"%s\" {\n", path)
+				first = false
+			}
+			c.yangNode(b, "  ")
+		}
+	}
+	if !first {
+		b.WriteString(" }\n")
+	}
+	for _, c := range n.Children {
+		c.yangAugments(b, path+"/"+c.Name)
+	}
 }
 
 // QuoteYang renders s as a double-quoted YANG string.
@@ -213,7 +241,19 @@ func (t *Type) yang(b *strings.Builder) {
 	}
 }
 
+// yang writes a node where it stands; nodes that live in an augment statement are left to yangAugments.
 func (n *Node) yang(b *strings.Builder, ind string) {
+	if n.Aug {
+		return
+	}
+	n.yangNode(b, ind)
+}
+
+func (n *Node) yangNode(b *strings.Builder, ind string) {
+	if n.Kind == "case" && n.Short && len(n.Children) == 1 {
+		n.Children[0].yangNode(b, ind)
+		return
+	}
 	common := func() {
 		if n.When != "" {
 			fmt.Fprintf(b, "%s when %s;\n", ind, quoteArg(n.When))
